@@ -306,6 +306,11 @@ pub fn pred_battery(n0: u64, n1: u64, s: &McState) -> String {
 }
 
 thread_local! {
+    /// mismatches between the processes' own view of their pending timers and the framework's bookkeeping (C07)
+    pub static XTM: std::cell::RefCell<Vec<String>> = std::cell::RefCell::new(Vec::new());
+}
+
+thread_local! {
     /// reduced observations (no access to the process state): used when processes are Python twins (C18)
     pub static REDUCED: std::cell::Cell<bool> = std::cell::Cell::new(false);
 }
@@ -385,6 +390,27 @@ pub fn mk_config(ps: &PredSpec, vm: &str, debug: bool, rec: Recorder, verbose: b
             return Err("FUEL".to_string());
         }
         rec.borrow_mut().push(state_line(&psc, s, verbose));
+        // C07 (model checking): the framework's pending-timer bookkeeping against what the processes themselves asked for
+        if !REDUCED.with(|c| c.get()) {
+            let idx = rec.borrow().len() - 1;
+            for ns in s.node_states.values() {
+                if ns.verif_is_crashed() {
+                    continue;
+                }
+                for (pn, pe) in &ns.proc_states {
+                    let st = crate::script_proc::script_state(&pe.proc_state);
+                    if !st.tracks {
+                        continue;
+                    }
+                    let mut fw: Vec<u64> = pe.pending_timers.keys().map(|k| num(k)).collect();
+                    fw.sort();
+                    let own: Vec<u64> = st.ptimers.iter().cloned().collect();
+                    if fw != own {
+                        XTM.with(|x| x.borrow_mut().push(format!("XTM {} {} own={:?} framework={:?}", idx, num(pn), own, fw)));
+                    }
+                }
+            }
+        }
         match e_inv(&psc.inv, s) {
             Some(k) => Err(k.to_string()),
             None => Ok(()),
@@ -586,7 +612,13 @@ pub fn run_lines(lines: &[String], pre: Option<ModelChecker>, pre_nodes: Option<
                             for (j, l) in rec.borrow().iter().enumerate() {
                                 writeln!(out, "CHECK {} {}", j, l).unwrap();
                             }
+                            XTM.with(|x| {
+                                for l in x.borrow().iter().take(5) {
+                                    writeln!(out, "{}", l).unwrap();
+                                }
+                            });
                         }
+                        XTM.with(|x| x.borrow_mut().clear());
                         match r {
                             Ok(stats) => {
                                 writeln!(out, "RESULT OK").unwrap();
